@@ -277,24 +277,42 @@ def check_deterministic(g, tag):
 
 
 def probe_join_ref(ctx, rp):
-    """what async<T &>::join() hands out (constant JoinRef of the specification follows the code)"""
-    rc, out = vlib.run_cmd([rp, "--probe-join-ref"], timeout=60)
+    """what async<T &>::join() hands out.  The specification is fixed at JoinRef = "ref" (the repaired behaviour, /repo ae08cd1:
+    join() returns the reference itself); anything else found on the code is the defect recorded under the key
+    join_of_reference_coroutine - reported as a violation, and the replay against the "ref" model diverges as well."""
+    rc, out = vlib.run_cmd([rp, "--probe-join-ref"], timeout=20)
     m = re.search(r"^JOINREF (\w+)", out, re.M)
-    if rc != 0 or not m or m.group(1) == "unknown":
-        raise MachineryError("cannot classify what async<T&>::join() returns: " + out[-500:])
-    how = m.group(1)
+    how = m.group(1) if m else "unknown"
     ctx.extra["join_of_reference_coroutine"] = how
-    if how == "moves":
-        ctx.extra["candidate_defect"] = (
-            "async<T&>::join() (async.h:125-131: `auto join()` + `return std::move(future<T>(*this).join())`) returns a "
-            "value MOVE-constructed from the object the coroutine referred to: the referenced object, which outlives the "
-            "coroutine and belongs to somebody else, is left moved-from (program ref|join|0|ret0: Create, RootStart -> "
-            "rm=[true]); co_await, start()+wait(), future<T&> and the value-future conversions all hand out the object "
-            "itself.  Modelled as-is (JoinRef = \"moves\"); a join() returning T& (decltype(auto), no std::move for "
-            "references) would be JoinRef = \"ref\".")
-        ctx.assume("async<T&>::join() moves out of the referenced object at the checked revision (recorded as "
-                   "candidate_defect in the evidence, not reported as a violation of C04's text)")
-    return how
+    if how != "ref" and not getattr(ctx, "_joinref_reported", False):
+        ctx._joinref_reported = True
+        ctx.violation("join_of_reference_coroutine",
+                      "async<T&>::join() does not hand out the referenced object itself (probe: %s): a value move-/copy-constructed from "
+                      "the object the coroutine only refers to; with `auto join()` + std::move the referent is left moved-from (program "
+                      "ref|join|0|ret0: Create, RootStart -> rm=[true]); every other delivery form hands out the object itself" % how,
+                      "#probe async_replay --probe-join-ref\n#output: %s\n" % out.strip()[:500], kind="txt")
+    return "ref"
+
+
+def build(ctx, name, sanitize, opt="-O1"):
+    """the replayer; when the tree under test no longer compiles the reference-coroutine instantiation (async<T&> with
+    every delivery form, legal user code at the pinned revision) that is reported, and the check goes on without it"""
+    rp = vlib.compile_harness(os.path.join(vlib.VERIF, "harness/async_replay.cpp"), name, sanitize=sanitize, opt=opt,
+                              fallback_defines=["ASYNC_NO_REF"])
+    noref = vlib.compile_harness.last_fallback
+    if noref:
+        try:
+            vlib._compile_harness(os.path.join(vlib.VERIF, "harness/async_replay.cpp"), name + "_full", sanitize=False, opt="-O0")
+            msg = ""
+        except MachineryError as e:
+            msg = str(e)
+        errs = [l for l in msg.splitlines() if " error" in l][:3]
+        ctx.violation("compile:async_reference_coroutine",
+                      "async<T&> coroutines (co_return of a reference; start / join / co_await / start(promise) / value-future "
+                      "conversions) no longer compile against this tree: " + " | ".join(errs)[:900],
+                      "# harness/async_replay.cpp compiles only with -DASYNC_NO_REF\n#" + "\n#".join(msg.splitlines()[-40:]) + "\n",
+                      kind="log")
+    return rp, noref
 
 
 def race_replay(ctx, rp):
@@ -325,7 +343,7 @@ def race_replay(ctx, rp):
                "destruction after the wake-up are thread-local steps); sequentially consistent interleavings (C03 covers orders)")
 
 
-def alloc_replay(ctx):
+def alloc_replay(ctx, rp=None):
     """C20 hook (also part of C04's own run): starting, completing, joining and awaiting an async<T> makes no operator
     new call of its own -- the coroutine frames (none under the counting storage policy) and the payloads the bodies
     construct are the only allocations -- and the result object is never copied on its way to the bound party (a copy of
@@ -335,9 +353,9 @@ def alloc_replay(ctx):
     edge replayed with the payload's copy count and the library's own operator-new count as compared observations.
     Violations are registered in ctx (they appear under the calling property)."""
     own = ctx.prop.upper() != "C04"
-    rp = vlib.compile_harness(os.path.join(vlib.VERIF, "harness/async_replay.cpp"),
-                              "async_replay_" + ctx.prop.lower() if own else "async_replay",
-                              sanitize=False if own else not ctx.quick, opt="-O0" if own else "-O1")
+    if rp is None:
+        rp, noref = build(ctx, "async_replay_" + ctx.prop.lower() if own else "async_replay",
+                          False if own else not ctx.quick, "-O0" if own or ctx.quick else "-O1")
     ps = alloc_family()
 
     def hdr(k, st0):
@@ -351,9 +369,11 @@ def alloc_replay(ctx):
 
 
 def run(ctx):
-    rp = vlib.compile_harness(os.path.join(vlib.VERIF, "harness/async_replay.cpp"), "async_replay",
-                              sanitize=not ctx.quick)
+    # quick: unoptimised build (the compile is a third of the tier's time, the replay itself is short)
+    rp, noref = build(ctx, "async_replay", not ctx.quick, "-O0" if ctx.quick else "-O1")
     fams = families(ctx.quick)
+    if noref:
+        fams.pop("ref", None)
     join_ref = probe_join_ref(ctx, rp)
     ctx.extra["programs"] = sum(len(v) for v in fams.values())
     ctx.extra["program_families"] = {k: len(v) for k, v in fams.items()}
@@ -372,7 +392,7 @@ def run(ctx):
     if len(ctx.violations) < 3:
         race_replay(ctx, rp)
     if len(ctx.violations) < 3:
-        alloc_replay(ctx)
+        alloc_replay(ctx, rp)
     # the hand-runnable instance (spec/Async/Async_small.tla) stays checked as well
     res = ctx.tlc("Async", "Async_small", os.path.join(vlib.VERIF, "spec/Async/Async_small.cfg"), "small",
                   workers=TLC_WORKERS)
